@@ -192,6 +192,7 @@ ROUND10 = {
 ROUND12 = {
  "C03": " Long file lists (1500; thorough 300..4000 files) under a descriptor limit of 1024.",
  "C06": " Flood runs over loopback TCP: 400 000 Have frames at once (plain, behind an oversized header, behind a maximal frame); undecoded bytes held after every frame never above one maximal frame. Unknown id 0x54 (the fifth byte of a handshake) is in the alphabet.",
+ "C08": " T: keep-alive intervals pass during the handshake phase (plain variants).",
  "C19": " Real-HTTP runs: a loopback tracker answers through reqwest with Content-Length, chunked, close-delimited and split replies.",
  "C20": " Silent non-reading peer with only 9-byte messages to write (real socket with 4 KiB buffers, paused clock).",
 }
